@@ -663,7 +663,7 @@ def judge_pipeline(ctx, c: Dict[str, Any], m: Dict[str, Any], s: Dict[str, Any],
     v = None
     if not s.get("holds", False):
         why = str(s.get("why"))
-        obs: Dict[str, Any] = {"err": r["err"]} if "err" in r else {f: t for f, t in r["files"].items() if f in why}
+        obs: Dict[str, Any] = {"err": r["err"]} if "err" in r else ({f: t for f, t in r["files"].items() if f in why} or {"generated_files": sorted(r["files"])})
         v = {"key": key, "what": "generated package violates the specification: " + why, "case": case, "observed": obs, "how": how}
     if v is not None and report:
         ctx.violation(key=v["key"], what=v["what"], case=v["case"], observed=v["observed"], how=v["how"])
